@@ -124,9 +124,17 @@ def via_history(obj, rng):
             else:
                 V0 = m + k * (V - m) + t
                 r0 = None
+            size_last = (not sphero) and bool(rng.random() < 0.5)
             o = _clone_with(obj, V0, r0)
             warm(o, rng)
             how = []
+            if size_last:
+                # centroid first, to k times the target's centroid; the size setter (every _rescale of the library scales
+                # about the ORIGIN) then lands on the target.  This order leaves whatever the centroid setter refreshes
+                # refreshed BEFORE the last rescale, so a cache only the rescale forgets is still stale at the end.
+                cattr = "centroid" if (rng.random() < 0.5 or not hasattr(type(obj), "center")) else "center"
+                setattr(o, cattr, k * np.array(getattr(obj, cattr), dtype=float))
+                how.append(cattr)
             if not sphero:
                 three_d = name in ("ConvexPolyhedron", "Polyhedron")
                 setters = (["volume", "surface_area"] if three_d else ["area", "perimeter"])
@@ -151,10 +159,14 @@ def via_history(obj, rng):
                 how += [sname, "radius"]
             if sphero:
                 return o, "via:" + "+".join(how)
-            cattr = "centroid" if (rng.random() < 0.5 or not hasattr(type(obj), "center")) else "center"
+            if size_last:
+                cattr = None
+            else:
+                cattr = "centroid" if (rng.random() < 0.5 or not hasattr(type(obj), "center")) else "center"
             try:
-                setattr(o, cattr, np.array(getattr(obj, cattr), dtype=float))
-                how.append(cattr)
+                if cattr is not None:
+                    setattr(o, cattr, np.array(getattr(obj, cattr), dtype=float))
+                    how.append(cattr)
             except (AttributeError, NotImplementedError):
                 # no centre setter (spheropolytopes): the detour is only usable if nothing had to move
                 return obj, "direct:no-centre-setter"
